@@ -385,10 +385,32 @@ pub fn filter_of(f: &Value) -> InstrumentFilter {
     }
 }
 
+thread_local! {
+    /// exchange time of the last open report built per client order id (for "tie" reports)
+    static LAST_REPORT: std::cell::RefCell<std::collections::HashMap<String, i64>> = std::cell::RefCell::new(Default::default());
+}
+
 pub fn order_snapshot(e: &Value) -> Order<ExchangeIndex, InstrumentIndex, OrderState<AssetIndex, InstrumentIndex>> {
-    let t = i(e, "t");
+    let mut t = i(e, "t");
+    // optional "tie": true -> an open report carrying the SAME exchange timestamp as the previous
+    // open report for this id but a different filled quantity (two fills in one exchange millisecond)
+    let tie = e.get("tie").and_then(|x| x.as_bool()).unwrap_or(false);
+    let mut filled = 0;
+    if s(e, "kind") == "Open" {
+        let cid = s(e, "cid").to_string();
+        LAST_REPORT.with(|m| {
+            let mut m = m.borrow_mut();
+            if tie {
+                if let Some(prev) = m.get(&cid) {
+                    t = *prev;
+                    filled = 1;
+                }
+            }
+            m.insert(cid, t);
+        });
+    }
     let state = match s(e, "kind") {
-        "Open" => OrderState::active(Open::new(OrderId::new("o1"), time(t), dec(0))),
+        "Open" => OrderState::active(Open::new(OrderId::new("o1"), time(t), dec(filled))),
         "Inactive" => match t % 3 {
             0 => OrderState::inactive(Cancelled::new(OrderId::new("o1"), time(t))),
             1 => OrderState::fully_filled(),
